@@ -6,7 +6,7 @@
 namespace sim {
 namespace {
 
-struct Variant { long outstep, saveps, fptrack; bool tracking, verbose; std::string output; };
+struct Variant { long outstep, saveps, fptrack; bool tracking, verbose; std::string output; int scribble = 0; };
 
 struct C12 : Scenario {
     const char* id() const override { return "C12"; }
@@ -50,6 +50,9 @@ struct C12 : Scenario {
             p.seti(pre + "fptrack", r.range(0, 3));
             p.seti(pre + "verbose", r.chance(0.4));
             p.set(pre + "output", r.pick(std::vector<std::string>{"out.h5", "res.hdf5", "sub/dir/o.h5", "a b.h5"}));
+            // buggify (legal FFTW behaviour, not an observer in the property's list but an "equal inputs" case): the c2r
+            // transform destroys its input in this member's process; results must not depend on it
+            p.seti(pre + "scribble", (i > 0 && r.chance(0.25)) ? r.range(1, 2) : 0);
         }
         p.setu("entropy", r.u64());
         // real planner (FFTW_PATIENT + wisdom files) only for short transforms: planning is timed and slow
@@ -74,8 +77,10 @@ struct C12 : Scenario {
             c.tracking = v.tracking ? "track.txt" : "";
             c.output = subdir + v.output;
             Launch l = make_launch(c, rc.workdir, tag, entropy, planner);
+            l.rt.c2r_scribble = v.scribble;
             LaunchResult r = run_launch(l);
             o.launches++;
+            if (r.sumi("scribbles") > 0) o.fault("fftw_c2r_input_destroyed", r.sumi("scribbles"));
             o.simsteps += r.sumi("steps_done");
             if (!r.exited || r.code != 0 || (unsigned)r.sumi("steps_done") != d.laststep) {
                 o.set_infra("launch " + tag + " failed: " + r.describe() + " steps=" + std::to_string(r.sumi("steps_done")) + " " + tail(r.err));
@@ -97,7 +102,7 @@ struct C12 : Scenario {
         for (long i = 0; i < k; i++) {
             std::string pre = "v" + std::to_string(i) + ".";
             Variant v{plan.geti(pre + "outstep"), plan.geti(pre + "saveps"), plan.geti(pre + "fptrack"),
-                      plan.geti(pre + "tracking") != 0, plan.geti(pre + "verbose") != 0, plan.get(pre + "output", "out.h5")};
+                      plan.geti(pre + "tracking") != 0, plan.geti(pre + "verbose") != 0, plan.get(pre + "output", "out.h5"), (int)plan.geti(pre + "scribble", 0)};
             H5Snap s;
             make_dir(rc.workdir + "/m" + std::to_string(i) + "/sub/dir");
             if (!launch_variant(v, "m" + std::to_string(i), "m" + std::to_string(i) + "/", s)) return o;
@@ -123,7 +128,7 @@ struct C12 : Scenario {
             std::string e = cmp_row(snaps[0], ra - 1, snaps[i], rb - 1, PS_DATA);
             if (!e.empty()) o.fail("C12.final_ps", "final phase space of member 0 (outstep=" + std::to_string(vars[0].outstep) + ",saveps=" + std::to_string(vars[0].saveps) +
                                                    ") vs member " + std::to_string(i) + " (outstep=" + std::to_string(vars[i].outstep) + ",saveps=" + std::to_string(vars[i].saveps) +
-                                                   ",tracking=" + std::to_string(vars[i].tracking) + "): " + e);
+                                                   ",tracking=" + std::to_string(vars[i].tracking) + (vars[i].scribble ? ",fftw c2r input destroyed" : "") + "): " + e);
         }
         // common records identical
         std::vector<std::string> names = record_datasets();
@@ -183,7 +188,7 @@ struct C12 : Scenario {
         for (long i = k - 1; i >= 1 && k > 2; i--) {
             Plan q = p;
             std::string last = "v" + std::to_string(k - 1) + ".", cur = "v" + std::to_string(i) + ".";
-            for (auto key : {"outstep", "saveps", "tracking", "fptrack", "verbose", "output"}) {
+            for (auto key : {"outstep", "saveps", "tracking", "fptrack", "verbose", "output", "scribble"}) {
                 q.set(cur + key, p.get(last + key));
                 q.erase(last + key);
             }
@@ -205,6 +210,7 @@ struct C12 : Scenario {
             std::string pre = "v" + std::to_string(i) + ".";
             if (p.geti(pre + "tracking")) { Plan q = p; q.seti(pre + "tracking", 0); out.push_back(q); }
             if (p.geti(pre + "verbose")) { Plan q = p; q.seti(pre + "verbose", 0); out.push_back(q); }
+            if (p.geti(pre + "scribble", 0)) { Plan q = p; q.seti(pre + "scribble", 0); out.push_back(q); }
             if (p.get(pre + "output") != "out.h5") { Plan q = p; q.set(pre + "output", "out.h5"); out.push_back(q); }
         }
         if (p.geti("planner")) { Plan q = p; q.seti("planner", 0); out.push_back(q); }
